@@ -5,7 +5,7 @@ import json, subprocess, sys, os
 env = dict(os.environ, GOFLAGS='-mod=mod', GOPROXY='off', GOSUMDB='off', GOTOOLCHAIN='local')
 pkgs = sys.argv[1:] or ['./...']
 p = subprocess.run(['go', 'test', '-mod=mod', '-json', '-vet=off', '-count=1', '-timeout', '25m'] + pkgs,
-                   cwd='/repo', env=env, capture_output=True, text=True)
+                   cwd=os.environ.get('BASELINE_DIR', '/repo'), env=env, capture_output=True, text=True)
 open('/verif/.work/baseline_raw.json','w').write(p.stdout); open('/verif/.work/baseline_raw.err','w').write(p.stderr)
 res = {}
 for line in p.stdout.splitlines():
